@@ -14,7 +14,7 @@
    Loops = structural recursion on fuel, None = fuel exhausted.
    MODEL ONLY: no proofs in this file. *)
 From Coq Require Import List Arith Bool NArith.
-From CelloV Require Import RobinHood.
+From CelloV Require Import Generated RobinHood.
 Import ListNotations.
 
 Record gentry := mkE { ptr : N; root : bool; marked : bool }.
@@ -161,12 +161,16 @@ Section Registry.
     let n := ideal (nitems g) in
     if nslots g <? n then g_rehash g n else Some g.
 
+  (* GC_Resize_Less.  WHEN slots are given back is tuning: `gc_shrink_wanted nitems nslots n` is a
+     notation generated from the source (Generated.v; pinned tree: n <? nslots, i.e. whenever the
+     ideal size is smaller).  Nothing proved depends on the condition. *)
   Definition resize_less (g : gc) : option gc :=
     let n := ideal (nitems g) in
-    if n <? nslots g then g_rehash g n else Some g.
+    if gc_shrink_wanted (nitems g) (nslots g) n then g_rehash g n else Some g.
 
-  (* gc->mitems = gc->nitems + gc->nitems / 2 + 1 *)
-  Definition new_mitems (g : gc) : gc := set_mitems g (nitems g + nitems g / 2 + 1).
+  (* the collection threshold after a removal / a sweep: tuning, notation generated from the
+     source (pinned tree: gc->mitems = gc->nitems + gc->nitems / 2 + 1) *)
+  Definition new_mitems (g : gc) : gc := set_mitems g (gc_mitems_rule (nitems g)).
 
   (* GC_Mem_Ptr *)
   Definition gc_mem (g : gc) (p : N) : option bool :=
